@@ -16,7 +16,7 @@ def netFns : Fns Nat NText NChg Unit (Option NText) Nat :=
     analyze := fun t => t.length    -- stand-in: any pure function of the text
     answer := fun t _ => t }
 
-/-- history tokens: `O<u>=<hex>` `C<u>=<chg>,<chg>` `X<u>` `P<u>` (probe) `F<u>` (treated as probe) `U` (other request) -/
+/-- history tokens: `O<u>=<hex>` `C<u>=<chg>,<chg>` `X<u>` `P<u>` (probe) `F<u>` / `M<u>` / `H<u>` (folding, formatting, hover: treated as probes) `U` (other request) -/
 def parseNetTok (k : Nat) (s : String) : Option NMsg :=
   let kind := s.take 1 |>.toString
   let rest := (s.drop 1).toString
@@ -29,6 +29,8 @@ def parseNetTok (k : Nat) (s : String) : Option NMsg :=
   | "X", some u => some (.close u)
   | "P", some u => some (.docReq k u ())
   | "F", some u => some (.docReq k u ())
+  | "M", some u => some (.docReq k u ())
+  | "H", some u => some (.docReq k u ())
   | "U", _ => some (.otherReq k none)
   | _, _ => none
 
